@@ -196,7 +196,7 @@ def run(run: common.Run):
                 if mean['n'] != expn:
                     run.fail(sub, f'"Mean" row N={mean["n"]} is not the average over the {nb} compared bands (N={expn})',
                              signature=dict(kind='mean-row'))
-                elif abs(mean['r2'] - expr2) > 1e-4:
+                elif not (abs(mean['r2'] - expr2) <= 1e-4):
                     # the per-band rows are hidden by the name collision, so the Mean row is compared with the model's band
                     # definitions; with a forced finer grid and a non-nearest kernel those depend on the partition (D7)
                     local = case['upsampling'] == 'nearest' or case['grid'] != 'forced-finer'
@@ -212,11 +212,11 @@ def run(run: common.Run):
                                  signature=dict(kind='n-def'))
                         break
                     bad = None
-                    if m['r2'] is not None and abs(row['r2'] - float(m['r2'])) > 5e-5:
+                    if m['r2'] is not None and not (abs(row['r2'] - float(m['r2'])) <= 5e-5):
                         bad = f'r2 = {row["r2"]}, squared Pearson correlation is {float(m["r2"])}'
-                    elif m['rmse2'] is not None and abs(row['rmse'] ** 2 - float(m['rmse2'])) > 5e-5 * max(1.0, float(m['rmse2'])):
+                    elif m['rmse2'] is not None and not (abs(row['rmse'] ** 2 - float(m['rmse2'])) <= 5e-5 * max(1.0, float(m['rmse2']))):
                         bad = f'RMSE = {row["rmse"]}, root mean square difference is {math.sqrt(float(m["rmse2"]))}'
-                    elif m['rrmse2'] is not None and abs(row['rrmse'] ** 2 - float(m['rrmse2'])) > 5e-5 * max(1e-3, float(m['rrmse2'])):
+                    elif m['rrmse2'] is not None and not (abs(row['rrmse'] ** 2 - float(m['rrmse2'])) <= 5e-5 * max(1e-3, float(m['rrmse2']))):
                         bad = f'rRMSE = {row["rrmse"]}, RMSE/mean(ref) is {math.sqrt(float(m["rrmse2"]))}'
                     if not bad and row['n'] > 0 and math.isfinite(row['rrmse']) and row['rrmse'] != 0 and (r > 0).all() != (row['rrmse'] > 0) \
                             and ((r > 0).all() or (r < 0).all()):
